@@ -13,6 +13,10 @@
 # parameter count; a require of another missing module), and histories that switch between them.
 # Leg c08.indir: the same kinds of histories in the configurations DirManager.IsInDir depends on: the client sends no
 # PluginPath option (mode letter n), the workspace has a second folder (mode letter f; then p q are workspace files).
+# Leg c08.opentext: documents opened with a text that is NOT the file's text (`o<f>=<content>`: an unsaved buffer restored by
+# the editor - hot exit -, a file changed behind the editor's back). The repaired didOpen (fixes/C02-didopen-analysed.diff)
+# analyses the carried text like a first didChange: the document has unsaved edits from that moment on. The other
+# conformant generators mix such opens in as well.
 # Leg c08.anntype: annotation types (check 18): a file declares a class (`---@class T1`) another one uses (`---@type T1`) or
 # declares again; the declaring file goes away in a notification naming deletions only (watched Delete; didClose of a
 # document outside the workspace): the project-wide type table must be rebuilt (seeded change C08-5).
@@ -106,8 +110,11 @@ class Ed:
         self.dirty = set()
 
 
-def gen_history(rng, n_events, p_outside=0.08, p_raw=0.0, calm=False, batches=False, ann=0.14, INSIDE=INSIDE, OUTSIDE=OUTSIDE):
-    """ann = share of annotation statements (check 18). The model keeps the project-wide annotation type table inside the
+def gen_history(rng, n_events, p_outside=0.08, p_raw=0.0, calm=False, batches=False, ann=0.14, INSIDE=INSIDE, OUTSIDE=OUTSIDE,
+                p_with=0.2):
+    """p_with = share of the didOpen notifications that carry a text of their own (a restored unsaved buffer) instead of the
+    file's text.
+    ann = share of annotation statements (check 18). The model keeps the project-wide annotation type table inside the
     cross-file analysis `cross`, i.e. over the files of the PROJECT, recomputed when the third pass is; the real server
     builds it over every file it has analysed (fileStructMap) whenever a re-analysis happened. The two agree as long as every
     analysed file is a member of the project - all conformant histories - and differ after a Changed event / didSave for a
@@ -146,6 +153,14 @@ def gen_history(rng, n_events, p_outside=0.08, p_raw=0.0, calm=False, batches=Fa
         if r < 0.16 and closed_on_disk:
             g = rng.choice(closed_on_disk)
             ed.buf[g] = ed.disk[g]; ed.dirty.discard(g)
+            if not calm and rng.random() < p_with:
+                # a restored unsaved buffer: usually a small edit of the file's text (now and then the very same text)
+                c = edit_content(rng, ed.disk[g], ann) if rng.random() < 0.85 else ed.disk[g]
+                ed.buf[g] = c
+                if stmts(c) != stmts(ed.disk[g]):
+                    ed.dirty.add(g)
+                evs.append("o%s=%s" % (g, c))
+                continue
             evs.append("o" + g)
         elif r < 0.46 and opened:
             g = rng.choice(opened)
@@ -242,6 +257,17 @@ SEEDS = [
     "A a=t1,p=k1 op;xp",
     "A a=t1l,b=k1 wDb;wCb=k1;ob;cb=k2;sb;xb",
     "A a=t1t2,b=k1,p=k2k1 op;wDb;xp",
+    # documents opened with a text that is not the file's (the text carried by didOpen is analysed: C02-open-text-not-analysed)
+    "A a=d1,b=u2 oa=d2s;ca=d2;sa;xa",
+    "A a=ls oa=l",
+    "A a=d1 oa=d1;xa",
+    "A a=ls oa=l;xa",
+    "A a=l,b=u1 oa=ls;ob;cb=d1;sb;xa",
+    "A a=su1,b=c oa=u1;ob;cb=d1;sb;sa",
+    "A a=c oa=s;wMa=l;sa;xa",
+    "A a=u1,p=d1 op=d1s;oa;xp",
+    "A a=u1,p=s op=d1;sp;xp",
+    "A a=e oa=s;xa;oa=c;xa;oa",
 ]
 
 
@@ -389,6 +415,28 @@ def gen_anntype(rng, tier):
     return out
 
 
+def gen_opentext(rng, tier):
+    """documents opened with a text of their own: the file is clean / broken / has warnings, the opened text is a small edit
+    of it (breaks it, repairs it, changes a name) or the same text; afterwards the usual life of a document and of its
+    neighbours (change, save, close without saving, external change of the very file, another file's save that changes this
+    file's saved list, documents outside the workspace)"""
+    n = {"quick": 500, "thorough": 8000, "search": 300}[tier]
+    out = []
+    for k in range(n):
+        r = rng.random()
+        init, evs = gen_history(rng, rng.choice([3, 5, 8, 12]), p_outside=0.0 if r < 0.75 else 0.3, batches=rng.random() < 0.2,
+                                ann=0.0 if rng.random() < 0.3 else 0.14, p_with=0.85)
+        if not any(e[0] == "o" and "=" in e for e in evs):
+            # put one in front: open a file of the initial disk with an edited text
+            disk = dict(it.split("=") for it in init.split(",")) if init != "-" else {}
+            cands = [f for f in disk if f in INSIDE]
+            if cands:
+                f = rng.choice(cands)
+                evs = ["o%s=%s" % (f, edit_content(rng, disk[f], 0.0))] + evs
+        out.append(case_of("A" if rng.random() < 0.9 else "E", init, evs))
+    return out
+
+
 def gen_conformant(rng, tier):
     n = {"quick": 2400, "thorough": 40000, "search": 1200}[tier]
     out = list(SEEDS)
@@ -486,6 +534,8 @@ LEGS = [
     Leg("c08.tagonly", gen_tagonly, shrink=shrink, nontrivial=lambda c: True, per_case_s=5.0),
     Leg("c08.anntype", gen_anntype, shrink=shrink, nontrivial=lambda c: True, per_case_s=5.0),
     Leg("c08.indir", gen_indir, shrink=shrink, nontrivial=nontrivial, per_case_s=5.0),
+    Leg("c08.opentext", gen_opentext, shrink=shrink, per_case_s=5.0,
+        nontrivial=lambda c: any(e[0] == "o" and "=" in e for e in c.split(" ")[2].split(";"))),
     Leg("c08.annraw", gen_annraw, nontrivial=nontrivial, per_case_s=5.0, deciding=False),
 ]
 
@@ -498,7 +548,8 @@ TRUSTED = vlib.TRUSTED_COMMON + [
     "the mutual order of the duplicate-type warnings of one file follows a Go map: the harness sorts that run by line); "
     "a diagnostic is compared as type, start line and a hash of (start column, end line, end column, message text): the model's tag "
     "rendered by ocaml/c08_run.ml against what the real server published",
-    "modelled, tied by correspondence: diagnostics_manager.go, the five handlers of textdocument_file_request.go, "
+    "modelled, tied by correspondence: diagnostics_manager.go, the five handlers of textdocument_file_request.go (didOpen "
+    "compares the carried text with the file - the model's disk - and analyses it when they differ: legs c08.opentext, c08.raw), "
     "HandleFileEventChanges, the unchanged-content shortcut, RemoveFile / FileIndexInfo.RemoveOneFile, ReanalyseReferInfo trigger, "
     "GetAllFileErrorInfo; DirManager.IsInDir = the field in_dir of the instance (single root with or without the PluginPath option: "
     "files a-d inside, p q outside; two workspace folders: all six inside - leg c08.indir); flat module names only (sub-directory matching is C18's subject); LRU capacity not modelled",
